@@ -320,3 +320,11 @@ package db
 //@     invariant mi.err == nil && len(mi.status) == len(mi.iterators) && mi.cmp != nil
 //@     invariant bestIndex == noCurrent || (0 <= bestIndex && bestIndex <= rangeindex#2 && liveLayer(mi, bestIndex) && bestKey != nil && bytesval(bestKey) == mi.iterators[bestIndex].curKey)
 //@     invariant forall j int :: 0 <= j && j <= rangeindex#2 && liveLayer(mi, j) ==> bestIndex != noCurrent && bytescmpv(bytesval(bestKey), mi.iterators[j].curKey) <= 0 && (j < bestIndex ==> bytescmpv(mi.iterators[j].curKey, bytesval(bestKey)) > 0)
+
+// ---- C07: the change set of a view decodes the overlay by the same tombstone encoding as the reads ------------------------------
+// an overlay entry with an EMPTY raw value is a deletion; anything else is a write of the value behind the marker byte - in
+// particular the one-byte raw value (marker only) is a write of the empty value, not a deletion.
+//@ func enableDeletePatch.Put(p, key, value)
+//@   requires p != nil
+//@   at-call Delete assert[only-the-empty-raw-value-is-a-deletion] len(value) == 0 && arg1.arr == key.arr && arg1.off == key.off && len(arg1) == len(key)
+//@   at-call Put assert[a-marked-value-is-a-write-of-what-follows-the-marker] len(value) >= 1 && arg1.arr == key.arr && arg1.off == key.off && len(arg1) == len(key) && arg2.arr == value.arr && arg2.off == value.off + 1 && len(arg2) == len(value) - 1
